@@ -137,33 +137,16 @@ func (node *PFCPNode) Serve() {
 				logger.PfcpLog.Errorln("error closing PFCPNode conn", err)
 			}
 
-			// Clear out the remaining pconn completions
-		clearLoop:
-			for {
-				select {
-				case rAddr, ok := <-node.pConnDone:
-					{
-						if !ok {
-							// channel is closed, break
-							break clearLoop
-						}
-						node.pConns.Delete(rAddr)
-						logger.PfcpLog.Infoln("removed connection to", rAddr)
-					}
-				default:
-					// nothing to read from channel
-					break clearLoop
-				}
+			// Wait for the remaining PFCPConn completions: every association
+			// ends on the cancelled context, removes its sessions from the
+			// datapath and then reports on pConnDone. The channel is never
+			// closed: an association that reports late must not panic.
+			for node.hasConns() {
+				rAddr := <-node.pConnDone
+				node.pConns.Delete(rAddr)
+				logger.PfcpLog.Infoln("removed connection to", rAddr)
 			}
 
-			if len(node.pConnDone) > 0 {
-				for rAddr := range node.pConnDone {
-					node.pConns.Delete(rAddr)
-					logger.PfcpLog.Infoln("removed connection to", rAddr)
-				}
-			}
-
-			close(node.pConnDone)
 			logger.PfcpLog.Infoln("done waiting for PFCPConn completions")
 
 			node.upf.Exit()
@@ -171,6 +154,18 @@ func (node *PFCPNode) Serve() {
 	}
 
 	close(node.done)
+}
+
+// hasConns reports whether any PFCPConn is still registered.
+func (node *PFCPNode) hasConns() bool {
+	found := false
+
+	node.pConns.Range(func(key, value interface{}) bool {
+		found = true
+		return false
+	})
+
+	return found
 }
 
 func (node *PFCPNode) Stop() {
